@@ -45,7 +45,7 @@ def pOrder (s : String) : Option Order :=
   | _ => none
 
 def fDigest : Except Err Bytes → String
-  | .ok d => "ok:" ++ hex d | .error e => "err:" ++ errName e
+  | .ok d => "ok:" ++ hex d | .error _ => "err/digest"
 
 def fWV : WV → String
   | .num n => toString n | .bytes b => hex b | .bool b => fBool b | .other => "?"
@@ -109,11 +109,12 @@ def run (args : List String) : Option String :=
     let sel ← if sel == "-" then some none else sel.toNat?.map some
     pure (match parseRPCOrder v l d sel with
       | .ok o => "ok " ++ fOrder o
-      | .error e => "err:" ++ parseErrName e)
+      | .error .randomNonce => "err:random-nonce"
+      | .error _ => "err")
   | ["submit", o, sg, ms, np] => do
     let o ← pOrder o; let sg ← unhex sg; let ms ← unhex ms; let np ← unhex np
     pure (match toWire o { rawSig := sg, multiSigKey := ms, nodePubkey := np } with
-      | .error e => "err:" ++ errName e
+      | .error _ => "err/unsent"
       | .ok (d, s) =>
         let re := match orderOfWire o.isBid d s with
           | none => "rederive-failed"
